@@ -196,9 +196,19 @@ def g7(ctx, R):
                 cp = cmp_parts(e)
                 return bool(cp and cp[1] in ("In", "NotIn") and "arguments" in norm(cp[2]) and "name" in norm(cp[0]) and ((cp[1] == "NotIn") == pol))
             adv = [x for x in cfg.stmt_nodes() if isinstance(x.ast, ast.Assign) and any(
-                isinstance(t, ast.Attribute) and t.attr == "nextargpos" for t in x.ast.targets)]
-            advanced = any(not cfg.guarded(a, required_true) and (cfg.path_exists(a, nd, exc=False) or cfg.path_exists(nd, a, exc=False)) for a in adv)
-            if cfg.guarded(nd, not_filled) or advanced:
+                isinstance(t, ast.Attribute) and t.attr == "nextargpos" for t in x.ast.targets) and not cfg.guarded(x, required_true)]
+
+            def is_tag_slot(fc):
+                e, pol = fact_atom(fc)
+                cp = cmp_parts(e)
+                return bool(cp and cp[1] in ("In", "NotIn") and const_value(ctx.program, cna, cp[0]) == "tag" and "['type']" in norm(cp[2])
+                            and "extra_arg" not in norm(cp[2]) and ((cp[1] == "In") == pol))
+            # every path to the store (or, if the advance follows the store, to the end of the iteration) passes the advance
+            # unless the slot is a tag slot
+            before = cfg.guarded(nd, lambda fc: not_filled(fc) or is_tag_slot(fc), establish=lambda m: m in adv)
+            after = bool(adv) and all(cfg.exit not in cfg.reach(nd, avoid=adv + [p_ for fc in cfg.facts(is_tag_slot) for p_ in [fc]], exc=False) for _ in [0]) \
+                and any(cfg.path_exists(nd, a, exc=False) for a in adv)
+            if before or after:
                 ctx.holds("G7", "%s: optional store protected against refilling" % cna.qualname)
             else:
                 ctx.violation("G7", cna, "positional-overwrite", "an optional positional slot (%s) is stored without advancing past it or testing "
